@@ -89,16 +89,27 @@ func zzTimeoutPipeline() {
 	T := int64(1 + zz.Choice("timeout", zz.Tier(2, 3)))
 	req := zzRequestTx(1, 0, 0)
 	req.IBTP.TimeoutHeight = T
-	exec.processExecuteEvent(zzBlockOf(1, []pb.Transaction{req}))
+	// the receipt may already arrive in the block that carries the request (the execution layer
+	// allows it: the receipt is checked against the request applied earlier in the same block)
+	b1 := []pb.Transaction{req}
+	nonce := uint64(0)
+	sameBlock := dstUsable && zz.Choice("receiptInTheRequestBlock", 2) == 1
+	if sameBlock {
+		b1 = append(b1, zzReceiptTx(1, pb.IBTP_RECEIPT_SUCCESS, nonce, 1))
+		nonce++
+	}
+	exec.processExecuteEvent(zzBlockOf(1, b1))
 	id := zzSrcFullID() + "-1356:chB:sB-1"
 	st, ok := zzStatusOf(exec, id)
 	model := pb.TransactionStatus_BEGIN
 	if !dstUsable {
 		model = pb.TransactionStatus_BEGIN_FAILURE
 	}
+	if sameBlock {
+		model = pb.TransactionStatus_SUCCESS
+	}
 	zz.Assert("C06.pipe.request-accepted", ok && st == model)
 	expiry := uint64(1 + T)
-	nonce := uint64(0)
 	for h := uint64(2); h <= expiry+1; h++ {
 		var txs []pb.Transaction
 		kind := zz.Choice("block", 4) // 0 empty, 1 success, 2 failure, 3 rollback receipt
@@ -200,4 +211,55 @@ func ZZH_C05_shared_timeout() {
 			zz.Assert("C06.shared.unfinished-group-listed-once", zzTimedOut(im, "chA", kids[i]) == 1)
 		}
 	}
+}
+
+// ZZH_C06_emptied_list: a timeout list that was emptied before a group is entered into it. Block 1
+// accepts a single request with timeout 2 (expiry block 3); block 2 carries its success receipt
+// (the list of block 3 becomes empty) or nothing; then a one-to-many group of the same source chain
+// begins with the same expiry block (real TransactionManager.BeginMultiTXs through the real BoltVM
+// dispatch, as a later transaction of block 2). Block 3 runs through the real processExecuteEvent:
+// the group, which did not finish, is moved to BEGIN_ROLLBACK and its child is listed once for the
+// source chain - whatever happened to the list before the group was entered.
+// zz:also C05 C01
+func ZZH_C06_emptied_list() {
+	exec := zzNewExec(1, big.NewInt(0))
+	exec.ibtpVerify = &zzStubVerify{verdict: make([]uint8, 8), seen: make([]int, 8)}
+	exec.config.ProofType = "serial"
+	zzInterchainWorld(exec)
+	withRequest := zz.Choice("earlierRequest", 2) == 1
+	var b1 []pb.Transaction
+	if withRequest {
+		req := zzRequestTx(1, 0, 0)
+		req.IBTP.TimeoutHeight = 2
+		b1 = append(b1, req)
+	}
+	exec.processExecuteEvent(zzBlockOf(1, b1))
+	var b2 []pb.Transaction
+	receipt := withRequest && zz.Choice("receiptBeforeTheGroup", 2) == 1
+	if receipt {
+		b2 = append(b2, zzReceiptTx(1, pb.IBTP_RECEIPT_SUCCESS, 0, 1))
+	}
+	exec.processExecuteEvent(zzBlockOf(2, b2))
+	if receipt {
+		st, _ := zzStatusOf(exec, zzSrcFullID()+"-1356:chB:sB-1")
+		zz.Assert("C06.emptied.receipt-accepted", st == pb.TransactionStatus_SUCCESS)
+	}
+	gid, kid := "0xGROUPONE", "1356:chA:s1-1356:chC:s3-1"
+	_, err := zzTMInvoke(exec, 2, "BeginMultiTXs", pb.String(gid), pb.String(kid), pb.Uint64(1), pb.Bool(false), pb.Uint64(1))
+	if err != nil {
+		zz.Observe("beginErr", err.Error())
+	}
+	zz.Assert("C06.emptied.begin", err == nil)
+	crashed, _ := zz.Crashed(func() { exec.processExecuteEvent(zzBlockOf(3, nil)) })
+	zz.Assert("C08.block-executes", !crashed)
+	if crashed {
+		return
+	}
+	var info contracts.TransactionInfo
+	ok, v := exec.ledger.GetState(constant.TransactionMgrContractAddr.Address(), []byte(contracts.GlobalTxInfoKey(gid)))
+	zz.Assert("C06.emptied.info", ok && json.Unmarshal(v, &info) == nil)
+	zz.Assert("C06.emptied.unfinished-group-rolled-back-at-expiry", info.GlobalState == pb.TransactionStatus_BEGIN_ROLLBACK)
+	im, err2 := exec.ledger.GetInterchainMeta(3)
+	zz.Assert("C06.emptied.meta", err2 == nil)
+	zz.Assert("C06.emptied.group-listed-once", zzTimedOut(im, "chA", kid) == 1)
 }
